@@ -92,6 +92,24 @@ pub fn gen(tier: &str, r: &mut Rng) -> Vec<String> {
             }
         }
     }
+    // reading the same text twice: SEQRES records of several chains with mismatches (their diagnostics are produced
+    // per chain), generated PDB documents and generated mmCIF documents
+    for i in 0..budget(tier, 60, 2000) {
+        match i % 3 {
+            0 => {
+                let mut lines: Vec<String> = Vec::new();
+                let names = ["ALA", "GLY", "SER", "LYS"];
+                let nch = 2 + r.below(5);
+                for ci in 0..nch { lines.push(format!("SEQRES   1 {}    3  {} {} {}", (b'A' + ci as u8) as char, r.pick(&names), r.pick(&names), r.pick(&names))); }
+                let mut serial = 0;
+                for ci in 0..nch { for k in 0..3 { serial += 1; lines.push(format!("ATOM  {:>5}  CA  {} {}{:>4}    {:>8.3}{:>8.3}{:>8.3}  1.00 10.00           C  ", serial, r.pick(&names), (b'A' + ci as u8) as char, k, k as f64, 0.0, 0.0)); } lines.push("TER".into()); }
+                lines.push("END".into());
+                out.push(format!("c16 twice pdb {}", enc_bytes((lines.join("\n") + "\n").as_bytes())));
+            }
+            1 => { let d = crate::pdbtext::gen_doc(r, true); let l = crate::pdbtext::render(&d, r, true); out.push(format!("c16 twice pdb {}", enc_bytes((l.join("\n") + "\n").as_bytes()))); }
+            _ => { let d = crate::cifdoc::gen_doc(r, true, true); let t = crate::cifdoc::render(&d, r, false); out.push(format!("c16 twice mmcif {}", enc_bytes(t.as_bytes()))); }
+        }
+    }
     for _ in 0..budget(tier, 30, 500) {
         // atoms without element whose name is changed to an element symbol afterwards
         let o = GenOpts { max_models: 1, max_chains: 2, max_res: 2, max_conf: 2, max_atoms: 3, allow_empty: false, ..GenOpts::default() };
@@ -121,6 +139,27 @@ pub fn exec(case: &str) -> Exec {
     let op = t.next().unwrap().to_string();
     let mut ex = Exec::new(case, "");
     match op.as_str() {
+        "twice" => {
+            let fmt = t.next().unwrap().to_string();
+            let b = dec_bytes(t.next().unwrap()).unwrap();
+            ex.req = "-".into(); ex.resp = "-".into();
+            ex.tags.push(format!("twice:{fmt}"));
+            let format = if fmt == "pdb" { Format::Pdb } else { Format::Mmcif };
+            let rd = || ReadOptions::default().set_format(format).set_level(StrictnessLevel::Loose).read_raw(BufReader::new(&b[..]));
+            let show = |d: &[PDBError]| d.iter().map(|e| format!("{:?}", e)).collect::<Vec<_>>();
+            let fail = |ex: &mut Exec, kind: &str, d: String, f: &str| ex.failures.push(Failure::new(kind, d).feat("format", f));
+            for _ in 0..4 {
+                match (guarded(rd), guarded(rd)) {
+                    (Ok(Ok((p1, d1))), Ok(Ok((p2, d2)))) => {
+                        if p1 != p2 { fail(&mut ex, "two-reads-give-unequal-structures", String::new(), &fmt); break; }
+                        if show(&d1) != show(&d2) { fail(&mut ex, "two-reads-list-their-diagnostics-differently", String::new(), &fmt); break; }
+                    }
+                    (Ok(Err(d1)), Ok(Err(d2))) => if show(&d1) != show(&d2) { fail(&mut ex, "two-reads-list-their-diagnostics-differently", String::new(), &fmt); break; },
+                    (Ok(Ok(_)), Ok(Err(_))) | (Ok(Err(_)), Ok(Ok(_))) => { fail(&mut ex, "two-reads-disagree-on-acceptance", String::new(), &fmt); break; }
+                    _ => { fail(&mut ex, "read-panicked", String::new(), &fmt); break; }
+                }
+            }
+        }
         "threads" => {
             let n = t.usize().unwrap();
             let k = t.usize().unwrap();
